@@ -70,6 +70,7 @@ type Cfg struct {
 	ImpSaveTo         string `json:"impSaveTo"`         // impostor: write the served certificate and key here
 	ImpServeFrom      string `json:"impServeFrom"`      // impostor: serve with the certificate and key saved there (by an earlier launch)
 	ImpAnnounceServed bool   `json:"impAnnounceServed"` // announce the certificate actually served (a well-behaved plugin)
+	ImpAnnounce       string `json:"impAnnounce"`       // "none": the line carries no certificate field; "short": a certificate field of three characters
 }
 
 type LegacyCfg struct {
